@@ -62,9 +62,10 @@ Theorem C11_ml_mediaText_pinned_refuted : refuted_at m_ml_mediaText_pinned 0 3.
 Proof. exact ml_mediaText_pinned_refuted. Qed.
 Print Assumptions C11_media_cssText_pinned_refuted.
 
+Theorem C11_sheet_insertRule_namespace_pinned_refuted : refuted_at m_sheet_insertRule_ns_pinned 0 9.
+Proof. exact sheet_insertRule_ns_pinned_refuted. Qed.
+
 (* ---- not repaired (known findings): refuted on both trees ---- *)
-Theorem C11_sheet_insertRule_namespace_refuted : refuted_at m_sheet_insertRule_ns 0 9.
-Proof. exact sheet_insertRule_ns_refuted. Qed.
 Theorem C11_sheet_insertRule_import_refuted : refuted_at m_sheet_insertRule_import 0 10.
 Proof. exact sheet_insertRule_import_refuted. Qed.
 Theorem C11_import_cssText_fetch_refuted : refuted_at m_import_cssText_fetch 0 10.
